@@ -1,5 +1,5 @@
 """C16 — elementary functions: accurate in-domain, rejected outside, never NaN or inf."""
-import os, json, math, subprocess
+import os, json, math, re, subprocess
 from fractions import Fraction
 import core
 from core import num_canon, nums_agree, float_of_bits
@@ -237,6 +237,16 @@ def check(ctx):
                     refmeta.append((text, v))
             elif v.startswith("py:"):
                 ctx.violation("elem-escape:" + text, text, "a value or a diagnosed error", v, how)
+            else:
+                # a diagnosed error although base and exponent are inside the real domain of ^ (base > 0; base 0 with a positive
+                # exponent; negative base with an integral exponent) and the result is representable as a double
+                try:
+                    fx, fy = float(qx), float(qy)
+                    est = abs(fy) * (abs(math.log10(abs(fx))) if fx != 0 else 0)
+                except (OverflowError, ValueError):
+                    est = 1e9
+                if est < 290 and not (qx == 0 and qy == 0):
+                    ctx.violation("elem-rejected:" + text, text, "the value of %s ^ %s (inside the real domain)" % (qx, qy), "err " + v, how)
             real = "ok " + canon_or_other(v) if k == "ok" else "err " + v
             cases.append(("elem pow %s %s" % (num_canon(x), num_canon(y)), real, text))
 
@@ -248,6 +258,38 @@ def check(ctx):
             return nums_agree(ra[3:], ma[3:], 1e-12) and real.split("|")[1:] == model.split("|")[1:]
         return False
     ctx.correspond("elem", cases, agree=agree)
+    # ---------------- no evaluation yields NaN or an infinity: values that only ARISE from arithmetic outside the function
+    # library — a float unit factor times a magnitude near the top of the double range — and what is computed from them
+    import json as _json
+
+    def any_bad(v):
+        if isinstance(v, T.Array):
+            return any(any_bad(x) for x in v.contents)
+        if isinstance(v, T.Interval):
+            return any_bad(v.a) or any_bad(v.b)
+        return bad_number(v)
+    try:
+        U = _json.load(open(os.path.join(core.LEAN, "KaVerif", "Gen", "units.json")))["units"]
+        big_units = sorted({u["symbol"] for u in U if not u["cash"] and u["multiple"][2] == "float" and u["multiple"][0] / u["multiple"][1] > 50
+                            and u["symbol"].isascii() and u["symbol"].isalpha() and u["offset"][0] == 0})
+    except Exception:  # noqa
+        big_units = []
+    big_units = [u for u in big_units if u not in ("in", "to", "e")] or ["ly", "pc", "cal", "acre", "hp"]
+    qtexts = ["1e300 ly", "-1e300 ly", "2e292 pc", "1e308 cal", "1.7e308 acre", "{1e300 ly}", "x = 1e300 ly; x - x", "x = 1e300 ly; x*0",
+              "x = 1e300 ly; x/x", "sin(1e300 ly)", "abs(-1e300 ly)", "1e308 hp + 1e308 hp", "[1e300 ly, 2e300 ly]", "1e300 ly to m",
+              "1e300 ly < 2e300 ly", "sqrt(1e300 ly * 1e300 ly)", "1e200 ly * 1e200 ly"]
+    for _ in range(ctx.n(60, 1500)):
+        m = "%se%d" % (rng.choice(["1", "-1", "1.7", "9.9", "-2.5"]), rng.randrange(285, 309))
+        u = rng.choice(big_units)
+        qtexts.append(rng.choice(["%s %s", "{%s %s}", "x = %s %s; x - x", "abs(%s %s)", "y = %s %s; y*0", "%s %s^2", "[0 m, %s %s]"]) % (m, u))
+    for text in qtexts:
+        r = R.execute(text)
+        ctx.count("nonfinite:" + text, bucket="nonfinite/" + ("ok" if r["status"] == 0 else "err"))
+        how = "execute(%r)" % text
+        if r["escaped"]:
+            ctx.violation("elem-escape:" + text, text, "a value or a diagnosed error", r["escaped"], how)
+        elif r["status"] == 0 and (any_bad(r["value"]) or re.search(r"\b(inf|nan)\b", r["out"])):
+            ctx.violation("elem-nonfinite:" + text, text, "finite or error", r["out"].strip()[:80], how)
     # ---------------- accuracy clause (test)
     refs = mp_ref(refreq)
     tested = 0
